@@ -13,11 +13,15 @@ import (
 	"io"
 	"math/rand"
 	"os"
+	"os/exec"
 	"path/filepath"
 	"sort"
 	"strings"
+	"sync"
 	"syscall"
 	"time"
+
+	"github.com/mutagen-io/extstat"
 
 	"github.com/mutagen-io/mutagen/pkg/filesystem"
 	"github.com/mutagen-io/mutagen/pkg/housekeeping"
@@ -283,16 +287,196 @@ func runHousekeep(c *vlib.Ctx) error {
 		}
 		c.AddExtra("artifacts", len(cases[i].Arts))
 	}
+	// growth: housekeeping while staging roots and agent installations are in use
+	for k := 0; k < argInt(c, "live", 2); k++ {
+		rec := runHousekeepLive(c, self, int(c.Rand.Int31()))
+		c.Emit(rec)
+		c.Eval()
+		c.AddExtra("live_runs", 1)
+		if k == 0 {
+			c.Sample(map[string]any{"live": rec["out"].(map[string]any)["live"], "gone": rec["out"].(map[string]any)["gone"]})
+		}
+	}
 	return nil
 }
 
 func replayHousekeep(c *vlib.Ctx) error {
 	doc := c.LoadReplay()
 	var rec struct {
-		In hkIn `json:"in"`
+		Src string `json:"src"`
+		In  hkIn   `json:"in"`
 	}
 	vlib.Decode(doc["begin"], &rec)
+	if rec.Src == "live" {
+		c.Emit(runHousekeepLive(c, selfPath(), rec.In.Seed))
+		c.Eval()
+		return nil
+	}
 	c.Emit(runHousekeepCase(c, selfPath(), rec.In))
 	c.Eval()
 	return nil
+}
+
+// ---------------------------------------------------------------------------
+// Growth increment "housekeeping while in use" (spec/process/HousekeepingLive.tla).
+//
+// The data directory is populated as above, plus live artifacts whose users keep
+// going while the child runs the real Housekeep:
+//
+//	staging root, recent, a writer creating prefix directories and files
+//	staging root, stale when created, refreshed (new prefix directory) by its
+//	    writer before Housekeep starts, writer keeps going
+//	staging root, stale by its own mtime, writer works only inside an existing
+//	    prefix directory (never refreshes the root): conformance only
+//	agent installation whose binary is being executed right now
+//	agent installation whose process runs but whose access time is old
+//	    (a long-running agent): conformance only
+//
+// The ages of the live artifacts that enter the verdict are the ones the parent
+// observes (lstat) immediately before it starts Housekeep.
+func runHousekeepLive(c *vlib.Ctx, self string, seed int) map[string]any {
+	root := c.TempDir("hklive")
+	defer os.RemoveAll(root)
+	data := filepath.Join(root, "data")
+	outside := filepath.Join(root, "outside")
+	must(os.MkdirAll(data, 0o700))
+	must(os.MkdirAll(outside, 0o755))
+	r := rand.New(rand.NewSource(int64(seed)))
+	base := time.Now()
+	in := hkIn{Sidecar: false, Seed: seed}
+	entries := map[string]string{}
+	// a background population of ordinary artifacts around the thresholds
+	n := 0
+	for _, kind := range []string{"agent", "cache", "staging"} {
+		for _, d := range []int{-1440, -60, 60, 1440} {
+			n++
+			a := hkArt{ID: fmt.Sprintf("%s-plain-%s-%d", kind, deltaName(d), n), Kind: kind, Form: "plain", Age: hkLimit(kind) + d}
+			in.Arts = append(in.Arts, a)
+			entries[a.ID] = populate(data, outside, a, base, r)
+		}
+	}
+	stagingDir := filepath.Join(data, filesystem.MutagenSynchronizationStagingDirectoryName)
+	agentsDir := filepath.Join(data, filesystem.MutagenAgentsDirectoryName)
+	staleTime := base.Add(-time.Duration(hkLimit("staging")+1440) * time.Minute)
+	mk := func(name string, when time.Time) string {
+		p := filepath.Join(stagingDir, name)
+		writeFileAt(filepath.Join(p, "00", "seed"), []byte("x"), when, when)
+		must(os.Chtimes(filepath.Join(p, "00"), when, when))
+		must(os.Chtimes(p, when, when))
+		return p
+	}
+	liveRecent := mk("live-recent", base.Add(-10*time.Minute))
+	liveRefreshed := mk("live-refreshed", staleTime)
+	liveStale := mk("live-stale-inside", staleTime)
+	// running agents: copies of this executable, started as lingering processes
+	startAgent := func(name string) (*exec.Cmd, string) {
+		dir := filepath.Join(agentsDir, name)
+		must(os.MkdirAll(dir, 0o755))
+		bin := filepath.Join(dir, agentBinaryName)
+		// a copy, not a hard link: timestamps belong to the inode, and the housekeeping
+		// child itself is executed from this executable's inode
+		data, err := os.ReadFile(self)
+		must(err)
+		must(os.WriteFile(bin, data, 0o755))
+		old := base.Add(-time.Duration(hkLimit("agent")+1440) * time.Minute)
+		must(os.Chtimes(bin, old, old))
+		cmd := exec.Command(bin, "child", "linger", "own", root)
+		must(cmd.Start())
+		return cmd, bin
+	}
+	runningCmd, runningBin := startAgent("v-running")
+	oldCmd, oldBin := startAgent("v-running-old-atime")
+	defer func() {
+		for _, cm := range []*exec.Cmd{runningCmd, oldCmd} {
+			cm.Process.Kill()
+			cm.Wait()
+		}
+	}()
+	// executing does or does not refresh the access time (mount options); the long-running one is made old again
+	time.Sleep(50 * time.Millisecond)
+	oldT := base.Add(-time.Duration(hkLimit("agent")+1440) * time.Minute)
+	must(os.Chtimes(oldBin, oldT, oldT))
+	// the refreshed root: a new prefix directory before Housekeep starts
+	must(os.MkdirAll(filepath.Join(liveRefreshed, "7f"), 0o755))
+	// writers
+	stop := make(chan struct{})
+	type wstat struct{ ops, errs int }
+	stats := make([]wstat, 3)
+	var wg sync.WaitGroup
+	writer := func(idx int, rootDir string, refresh bool) {
+		defer wg.Done()
+		i := 0
+		for {
+			select {
+			case <-stop:
+				return
+			default:
+			}
+			i++
+			sub := "00"
+			if refresh {
+				sub = fmt.Sprintf("%02x", i%256)
+			}
+			stats[idx].ops++
+			if err := os.MkdirAll(filepath.Join(rootDir, sub), 0o755); err != nil {
+				stats[idx].errs++
+			} else if err := os.WriteFile(filepath.Join(rootDir, sub, fmt.Sprintf("f%d", i)), []byte("data"), 0o644); err != nil {
+				stats[idx].errs++
+			}
+			time.Sleep(200 * time.Microsecond)
+		}
+	}
+	wg.Add(3)
+	go writer(0, liveRecent, true)
+	go writer(1, liveRefreshed, true)
+	go writer(2, liveStale, false)
+	// observed ages (minutes) immediately before the call
+	observe := func(id, kind, entry, stamped string, atime bool) {
+		age := 0
+		if ex, err := extstat.NewFromFileName(stamped); err == nil {
+			t := ex.ModTime
+			if atime {
+				t = ex.AccessTime
+			}
+			if d := base.Sub(t); d > 0 {
+				age = int(d / time.Minute)
+			}
+		}
+		in.Arts = append(in.Arts, hkArt{ID: id, Kind: kind, Form: "live", Age: age})
+		entries[id] = entry
+	}
+	observe("live-recent", "staging", liveRecent, liveRecent, false)
+	observe("live-refreshed", "staging", liveRefreshed, liveRefreshed, false)
+	observe("v-running", "agent", filepath.Dir(runningBin), runningBin, true)
+	before := treeDigest(outside)
+	env := []string{"MUTAGEN_DATA_DIRECTORY=" + data, "HOME=" + root, "MUTAGEN_SIDECAR="}
+	res := runChild(self, []string{"child", "housekeep"}, env, nil, root, 300*time.Second)
+	close(stop)
+	wg.Wait()
+	if res.TimedOut || res.ExitCode != 0 {
+		vlib.Fatal("housekeep child failed: exit=%d timeout=%v %s", res.ExitCode, res.TimedOut, res.Stderr)
+	}
+	elapsed := time.Since(base)
+	slack := int((elapsed + time.Minute - 1) / time.Minute)
+	gone := []string{}
+	for _, a := range in.Arts {
+		if _, err := os.Lstat(entries[a.ID]); err != nil {
+			gone = append(gone, a.ID)
+		}
+	}
+	exists := func(p string) bool { _, err := os.Lstat(p); return err == nil }
+	live := map[string]any{
+		"writer_ops":                  stats[0].ops + stats[1].ops + stats[2].ops,
+		"errors_recent":               stats[0].errs,
+		"errors_refreshed":            stats[1].errs,
+		"errors_stale_inside":         stats[2].errs,
+		"stale_inside_removed":        !exists(liveStale),
+		"old_atime_agent_removed":     !exists(filepath.Dir(oldBin)),
+		"old_atime_agent_process_up":  pidExists(oldCmd.Process.Pid),
+		"running_agent_process_up":    pidExists(runningCmd.Process.Pid),
+		"running_agent_atime_refresh": in.Arts[len(in.Arts)-1].Age < hkLimit("agent"),
+	}
+	out := map[string]any{"gone": gone, "changed": []string{}, "before": before, "after": treeDigest(outside), "slack": slack,
+		"elapsed_ms": int(elapsed / time.Millisecond), "live": live}
+	return map[string]any{"ev": "Housekeep", "src": "live", "in": in, "out": out}
 }
